@@ -300,6 +300,7 @@ func runC04(c *Ctx) {
 	checkSelectedKeyUsedUnderLock(c, "C04-R6")
 	checkLiveKeysUsedUnderLock(c, "C04-R6")
 	checkUnlockedFlagSetLast(c, "C04-R6")
+	checkNoKeyUseAfterZero(c, "C04-R2") // a key wiped before it is used seals under the all-zero key
 	// live crypto keys never wiped through an aliasing accessor outside the wipe functions
 	nZero := 0
 	for _, fn := range p.FuncsIn("waddrmgr") {
